@@ -1079,22 +1079,12 @@ fn pad_integral(
         Err(_) => 0,
     };
 
-    if pad != 0 && f.sign_aware_zero_pad() {
-        for _ in 0..pad {
-            f.write_char('0')?;
-        }
-        pad = 0;
-    }
-
-    if f.sign_plus() {
-        f.write_char('+')?;
-    }
-    if f.alternate() {
-        f.write_str(prefix)?;
-    }
-
+    // As in `fmt::Formatter::pad_integral()`, sign and prefix come directly
+    // before the digits: after the fill characters, but before the zeros of
+    // sign-aware zero padding.
+    let zero_pad = f.sign_aware_zero_pad();
     let fill_char = f.fill();
-    if pad != 0 {
+    if pad != 0 && !zero_pad {
         let pad_front = match f.align() {
             Some(fmt::Alignment::Left) => 0,
             Some(fmt::Alignment::Center) => pad / 2,
@@ -1104,6 +1094,20 @@ fn pad_integral(
         for _ in 0..pad_front {
             f.write_char(fill_char)?;
         }
+    }
+
+    if f.sign_plus() {
+        f.write_char('+')?;
+    }
+    if f.alternate() {
+        f.write_str(prefix)?;
+    }
+
+    if zero_pad {
+        for _ in 0..pad {
+            f.write_char('0')?;
+        }
+        pad = 0;
     }
 
     write_digits(f)?;
